@@ -99,8 +99,18 @@ def pool_side_effects(case, mode, seed, n_queries=2, check_clone=True, variant=N
     qs = case.build()
     data = case.data(seed)
     models = case.models()
+    if variant in ("rs-instance", "rs-instance-all-labeled"):
+        # the constructor parameter `random_state` is a caller-owned RandomState instance: its state is part of
+        # get_params() and must survive a query (the all-labeled flavour has the smallest per-call seed multiplier)
+        if "random_state" not in qs.get_params(deep=False):
+            return findings, dict(not_applicable=True)
+        inst = np.random.RandomState(seed % 1000 + 11)
+        inst.random_sample(2)
+        qs.set_params(random_state=inst)
+        if variant == "rs-instance-all-labeled" and (mode == "none" or not _label_all(data)):
+            return findings, dict(not_applicable=True)
     kw = case.query_kwargs(data, models, mode)
-    if variant is not None:
+    if variant in ("prefit", "prefit-nosw"):
         try:
             if not _prefit_variant(kw, variant):
                 return findings, dict(not_applicable=True)
@@ -109,7 +119,9 @@ def pool_side_effects(case, mode, seed, n_queries=2, check_clone=True, variant=N
         check_clone = False
     arr0 = snap.arrays_snapshot(kw)
     par0 = snap.params_snapshot(qs)
-    Xp = kw["X"] if variant is not None else None
+    if variant is not None:
+        check_clone = False
+    Xp = kw["X"] if variant in ("prefit", "prefit-nosw") else None
     mod0 = {k: _model_snapshot(v, Xp) for k, v in _models_in(kw).items()}
     pick0 = snap.pickles(qs)
     outs = []
@@ -126,7 +138,7 @@ def pool_side_effects(case, mode, seed, n_queries=2, check_clone=True, variant=N
             findings.append(dict(kind="param-write", name=k, what=f"get_params()['{k}'] changed during query #{q + 1}: {_short(par0.get(k))} -> {_short(par1.get(k))}"))
         for k, v in _models_in(kw).items():
             if _model_snapshot(v, Xp) != mod0[k]:
-                findings.append(dict(kind="model-altered", name=k, what=f"query #{q + 1} altered the caller's `{k}` object (parameters, fitted attributes or predictions)" + (f" [fit flag False, pre-fitted model, {'with' if 'sample_weight' in kw else 'without'} sample_weight]" if variant else "")))
+                findings.append(dict(kind="model-altered", name=k, what=f"query #{q + 1} altered the caller's `{k}` object (parameters, fitted attributes or predictions)" + (f" [fit flag False, pre-fitted model, {'with' if 'sample_weight' in kw else 'without'} sample_weight]" if variant in ("prefit", "prefit-nosw") else "")))
         if findings:
             break
     pick1 = snap.pickles(qs)
@@ -392,6 +404,70 @@ def repro_pool(case, mode, seed, tie_data=False):
         return findings, info       # same root cause as a differing repeat / twin
     if r1 != r2:
         findings.append(dict(kind="repeat-differs", name="query", what="repeating the identical query on one strategy (same global generator state) gives a different result"))
+    return findings, info
+
+
+def _label_all(data):
+    """Reveal every label (the per-call seed multiplier of a pool query is `#unlabeled + 1`, so this is its smallest
+    value); candidates then have to be given explicitly."""
+    y = data["y"]
+    fill = data.get("y_true", data.get("cls_true"))
+    if fill is None:
+        return False
+    m = np.isnan(y)
+    if y.ndim == 1:
+        y[m] = np.asarray(fill, dtype=float)[m]
+    else:
+        y[m] = np.broadcast_to(np.asarray(fill, dtype=float)[:, None], y.shape)[m]
+    return True
+
+
+def repro_pool_instance(case, mode, seed, all_labeled=False):
+    """`random_state` given as a RandomState *instance* (C06 covers it): two freshly constructed strategies holding
+    instances in equal states agree, the same call repeated on one strategy gives the same result, and the instance
+    the caller handed over is in the state it was given in afterwards (the per-call generator is derived from a deep
+    copy)."""
+    findings, info = [], {}
+
+    def build():
+        qs = case.build()
+        if "random_state" not in qs.get_params(deep=False):
+            return None, None
+        inst = np.random.RandomState(seed % 1000 + 7)
+        inst.random_sample(3)                      # not at its initial position
+        qs.set_params(random_state=inst)
+        return qs, inst
+
+    def prep():
+        data = case.data(seed)
+        if all_labeled and not _label_all(data):
+            return None
+        return case.query_kwargs(data, case.models(), mode)
+
+    try:
+        qs, inst = build()
+        if qs is None:
+            return findings, dict(raised="Skip: no random_state parameter")
+        kw = prep()
+        if kw is None:
+            return findings, dict(raised="Skip: no labels to reveal")
+        before = snap.canon(inst.get_state())
+        np.random.seed(GLOBAL_SEEDS[0])
+        r1 = snap.out_canon(_call(qs.query, **kw))
+        after1 = snap.canon(inst.get_state())
+        np.random.seed(GLOBAL_SEEDS[0])
+        r2 = snap.out_canon(_call(qs.query, **kw))
+        qs_t, inst_t = build()
+        np.random.seed(GLOBAL_SEEDS[0])
+        r_twin = snap.out_canon(_call(qs_t.query, **prep()))
+    except Exception as e:
+        return findings, dict(raised=f"{type(e).__name__}: {str(e)[:100]}")
+    if before != after1:
+        findings.append(dict(kind="caller-instance-advanced", name="query", what="query advanced the RandomState instance passed as random_state (the per-call generator must be derived from a copy); a repeated call therefore starts from another state"))
+    if r1 != r2:
+        findings.append(dict(kind="repeat-differs-instance", name="query", what="with random_state a RandomState instance, repeating the identical query on one strategy gives a different result"))
+    elif r1 != r_twin:
+        findings.append(dict(kind="twin-differs-instance", name="query", what="two freshly constructed strategies holding RandomState instances in equal states return different results for the same call"))
     return findings, info
 
 
